@@ -1,6 +1,7 @@
 //! `verif <ID> quick|thorough` and `verif replay <file>`.
 
 mod enga;
+mod engb;
 mod engc;
 mod genc;
 mod pipe;
@@ -22,6 +23,9 @@ fn main() {
         let text = std::fs::read_to_string(path).unwrap_or_else(|e| infra(&format!("{}: {}", path, e)));
         let v: serde_json::Value = serde_json::from_str(&text).unwrap_or_else(|e| infra(&format!("{}: {}", path, e)));
         let id = v["property"].as_str().unwrap_or("").to_string();
+        if v["engine"].as_str() == Some("B") {
+            std::process::exit(engb::replay(&v));
+        }
         if v["engine"].as_str() == Some("C") {
             std::process::exit(engc::replay(&v));
         }
@@ -51,6 +55,9 @@ fn main() {
     };
     match id.as_str() {
         "C11" => std::process::exit(run_c11(tier)),
+        "C12" => std::process::exit(engb::run_c12(tier)),
+        "C16" => std::process::exit(engb::run_c16(tier)),
+        "C17" => std::process::exit(engb::run_c17(tier)),
         "C13" => std::process::exit(run_c13(tier)),
         "C18" => std::process::exit(engc::run_c18(tier)),
         _ => {}
